@@ -40,7 +40,7 @@ def gen(r, tier, i):
     from vmon import structw
     return _no_moves_with_peers({'class': 'dynamic', 'cell_ts': r.choice([0.5, 1.0, 1.5, 0.75]), 'dir_as': r.choice(['process', 'step']),
             'script': structw.gen_script(r), 'base': r.choice([[], [], ['env']]),
-            'deriver': r.choice([None, 'steps', 'processes']), 'dir_subtopo': r.random() < 0.25, 'viewer_ts': r.choice([0.25, 0.5, 1.0, 1.5, 2.0, 3.0]), 'poke': r.random() < 0.5, 'nested_cells': r.random() < 0.4, 'peers': r.random() < 0.3, 'named_viewer': r.random() < 0.3,
+            'deriver': r.choice([None, 'steps', 'processes']), 'dir_subtopo': r.random() < 0.25, 'dir_first': r.random() < 0.4, 'viewer_ts': r.choice([0.25, 0.5, 1.0, 1.5, 2.0, 3.0]), 'poke': r.random() < 0.5, 'nested_cells': r.random() < 0.4, 'peers': r.random() < 0.3, 'named_viewer': r.random() < 0.3,
             'run': r.choice([6.0, 8.0, 10.0]),
             # the caller's own loop: unforced run_for() calls (processes wait across their ends), then one update()
             'chunks': [r.choice([0.75, 1.0, 1.25, 2.5]) for _ in range(r.choice([0, 0, 2, 3, 4]))]})
